@@ -213,8 +213,10 @@ def build_template(root: pathlib.Path, projects: typing.Sequence[str], releases:
 
 def make_request(rid: int, nrows: int, vals: typing.Sequence[int], accept: str = 'application/json',
                  content: str = 'application/json', drop_column: typing.Optional[str] = None,
-                 garbage: bool = False) -> layout.Request:
+                 garbage: bool = False, swapped: bool = False) -> layout.Request:
     rows = [{'key': rid * 1000 + j, 'val': vals[j]} for j in range(nrows)]
+    if swapped:  # same fields, other order: the entry must still reach the pipeline in the query's schema
+        rows = [{'val': r['val'], 'key': r['key']} for r in rows]
     if drop_column:
         for row in rows:
             row.pop(drop_column)
